@@ -120,6 +120,31 @@ func main() {
 			runKcCase(c)
 			emit(c)
 		}
+	case "pool":
+		mode := "mgmt"
+		if *filter != "" {
+			mode = *filter
+		}
+		if replay != "" {
+			var c poolCase
+			mustReadJSON(replay, &c)
+			for k := range c.Ops {
+				c.Ops[k].Ok, c.Ops[k].Err, c.Ops[k].Panic, c.Ops[k].Execs = false, "", "", nil
+				c.Ops[k].Queries = pQueries{}
+			}
+			c.Execs, c.Probe, c.Peak, c.Peak2, c.Done, c.Mutated = nil, nil, 0, 0, 0, false
+			begin(&c)
+			runPoolCase(&c)
+			emit(&c)
+			return
+		}
+		for i := lo; i < hi; i++ {
+			r := newRng(*seed*1000003 + uint64(i))
+			c := genPoolCase(r, i, mode)
+			begin(c)
+			runPoolCase(c)
+			emit(c)
+		}
 	case "compile":
 		if replay != "" {
 			var c compileCase
